@@ -233,33 +233,29 @@ theorem keepalive_period (L j : Int) (hL : 2 ≤ L) (h5 : 5 ≤ j) (_h10 : j ≤
     1 ≤ kaSleep L j ∧ kaSleep L j ≤ L - margin L ∧ 1 ≤ margin L :=
   ⟨kaSleep_pos L j, kaSleep_le L j hL h5, by unfold margin; omega⟩
 
-/-- While an operator runs, its record never expires: with `lifetime ≥ 2`, jitter in `[5, 10]` and
-    every `touch()` call taking at most `B` ticks with `2·B < min(5, lifetime−1)` seconds, each new
-    record reaches the server strictly before the deadline of the record it replaces — for any
-    number of rounds, any latencies and jitters within the bounds. -/
-theorem renewal (u L B : Int) (hu : 0 < u) (hL : 2 ≤ L) (hB : 2 * B < margin L * u)
+/-- For a lifetime of one second the pinger sleeps half of it (`lifetime / 2` = `u / 2` ticks). -/
+theorem keepalive_period_one (u j : Int) : kaSleepT u 1 j = u / 2 := kaSleepT_one u j
+
+/-- While an operator runs, its record never expires: with `lifetime ≥ 1`, jitter in `[5, 10]` and every `touch()`
+    call taking at most `B` ticks with `2·B <` the margin (`min(5, lifetime−1)` seconds for `lifetime ≥ 2`, the other
+    half second for `lifetime = 1`), each new record reaches the server strictly before the deadline of the record
+    it replaces — for any number of rounds, any latencies and jitters within the bounds. -/
+theorem renewal (u L B : Int) (hu : 0 < u) (hL : 1 ≤ L) (hB : 2 * B < marginT u L)
     (rs : List Round) (t : Int)
     (h : ∀ r ∈ rs, 0 ≤ r.a ∧ r.a ≤ r.lat ∧ r.lat ≤ B ∧ 5 ≤ r.jitter ∧ r.jitter ≤ 10) :
     Renewed u L t rs :=
   renewed_of_bounds u L B hu hL hB rs t h
 
-/-- The `lifetime = 1` corner: the pinger sleeps a whole second, so whatever the jitter and however
-    fast the API, the old record is already dead (`deadline ≤ now`) when its replacement arrives. -/
-theorem renewal_lifetime_one (u : Int) (t : Int) (r r' : Round) (rs : List Round)
-    (hj : 5 ≤ r.jitter) (hl : 0 ≤ r.lat) (ha : 0 ≤ r'.a) :
-    ¬ Renewed u 1 t (r :: r' :: rs) ∧
-      ({ priority := 0, lifetime := 1, lastseen := t } : Rec).dead u (nextTouch u 1 t r + r'.a) = true := by
-  have hk := kaSleep_one r.jitter hj
-  constructor
-  · rintro ⟨h, _⟩
-    unfold nextTouch at h
-    rw [hk] at h
-    omega
-  · rw [dead_true_iff]
-    unfold nextTouch
-    rw [hk]
-    show t + 1 * u ≤ t + r.lat + 1 * u + r'.a
-    omega
+/-- The `lifetime = 1` corner (was finding F1, repaired by fad2571): the record built at `t` is still alive when its
+    successor arrives, provided two API calls fit into the remaining half second. -/
+theorem renewal_lifetime_one (u : Int) (t : Int) (r r' : Round) (hu : 0 < u)
+    (hl : 0 ≤ r.lat) (ha : 0 ≤ r'.a) (hB : r.lat + r'.a < u - u / 2) :
+    ({ priority := 0, lifetime := 1, lastseen := t } : Rec).dead u (nextTouch u 1 t r + r'.a) = false := by
+  rw [dead_false_iff]
+  unfold nextTouch
+  rw [kaSleepT_one]
+  show t + r.lat + u / 2 + r'.a < t + 1 * u
+  omega
 
 /-- `lifetime = 0` (what `touch(lifetime=0)` uses on exit) never writes a record at all. -/
 theorem lifetime_zero_withdraws (u prio : Int) (now : Int) : touchVal u prio 0 now = none :=
@@ -293,7 +289,7 @@ theorem withdraw_on_exit {u : Int} {s s' : State} {i : Identity} (h : step u s (
     (∀ r, (i, r) ∉ s'.status) ∧ (∀ j r, j ≠ i → ((j, r) ∈ s'.status ↔ (j, r) ∈ s.status)) ∧
       ∃ o, s'.ops i = some o ∧ o.alive = false := by
   obtain ⟨o, _, _, _, hst, hops⟩ := exit_spec h
-  refine ⟨?_, ?_, ⟨{ o with alive := false }, by rw [hops]; simp, rfl⟩⟩
+  refine ⟨?_, ?_, ⟨{ o with alive := false, sleeping := false }, by rw [hops]; simp, rfl⟩⟩
   · intro r hm
     rw [hst] at hm
     exact (mem_erase.mp hm).2 rfl
@@ -301,11 +297,11 @@ theorem withdraw_on_exit {u : Int} {s s' : State} {i : Identity} (h : step u s (
     rw [hst, mem_erase]
     exact ⟨fun h => h.1, fun h => ⟨h, hj⟩⟩
 
-/-- One call on any status content (autoclean on): `clean()` is handed exactly the identities whose
-    record is dead at `now` — the own record included — and nobody else. -/
+/-- One call on any status content (autoclean on): `clean()` is handed exactly the identities OF OTHERS whose record
+    is dead at `now` — never the own identity (repair abca199), and nobody alive. -/
 theorem dead_cleaned {u : Int} {st : List (Identity × RawEntry)} {me : Identity} {p : Int} {tg : Option Bool}
     {now now2 : Int} {d : Decision} (h : decideEv u st me p true tg now now2 = .ok d) (i : Identity) :
-    i ∈ d.cleaned ↔ ∃ e q, (i, e) ∈ st ∧ mkPeer now i e = .ok q ∧ q.isDead u now = true := by
+    i ∈ d.cleaned ↔ i ≠ me ∧ ∃ e q, (i, e) ∈ st ∧ mkPeer now i e = .ok q ∧ q.isDead u now = true := by
   unfold decideEv at h
   cases hp : parseAll now st with
   | error e => simp [hp] at h
@@ -313,39 +309,51 @@ theorem dead_cleaned {u : Int} {st : List (Identity × RawEntry)} {me : Identity
     simp only [hp] at h
     have h := decideP_ok h
     subst h
-    · simp only [decideCore, if_true, deadPeers, List.mem_map, List.mem_filter]
+    · simp only [decideCore, if_true, deadPeers, List.mem_map, List.mem_filter, Bool.and_eq_true, bne_iff_ne, ne_eq]
       constructor
-      · rintro ⟨q, ⟨hq, hd⟩, rfl⟩
+      · rintro ⟨q, ⟨hq, hd, hne⟩, rfl⟩
         obtain ⟨j, e, hm, hmk⟩ := (parseAll_mem hp q).mp hq
         have hid := mkPeer_id hmk
         rw [hid]
-        exact ⟨e, q, hm, hmk, hd⟩
-      · rintro ⟨e, q, hm, hmk, hd⟩
-        exact ⟨q, ⟨(parseAll_mem hp q).mpr ⟨i, e, hm, hmk⟩, hd⟩, mkPeer_id hmk⟩
+        exact ⟨by rw [← hid]; exact hne, e, q, hm, hmk, hd⟩
+      · rintro ⟨hne, e, q, hm, hmk, hd⟩
+        have hid := mkPeer_id hmk
+        exact ⟨q, ⟨(parseAll_mem hp q).mpr ⟨i, e, hm, hmk⟩, hd, by rw [hid]; exact hne⟩, hid⟩
 
-/-- In the transition system: after any operator processed the status, no dead record is left and
-    every live record is still there. -/
+/-- The own record is never cleaned, dead or not. -/
+theorem own_record_not_cleaned {u : Int} {st : List (Identity × RawEntry)} {me : Identity} {p : Int} {tg : Option Bool}
+    {now now2 : Int} {d : Decision} (h : decideEv u st me p true tg now now2 = .ok d) : me ∉ d.cleaned :=
+  fun hm => ((dead_cleaned h me).mp hm).1 rfl
+
+/-- In the transition system: after operator `i` processed the status, no dead record of anybody else is left, and
+    every live record — and `i`'s own, dead or not — is still there. -/
 theorem dead_cleaned_step {u : Int} {s s' : State} {i : Identity} (h : step u s (.deliver i) = some s') :
-    ∀ j r, (j, r) ∈ s'.status ↔ ((j, r) ∈ s.status ∧ r.dead u s.now = false) := by
+    ∀ j r, (j, r) ∈ s'.status ↔ ((j, r) ∈ s.status ∧ (r.dead u s.now = false ∨ j = i)) := by
   obtain ⟨_, _, _, _, hst, _, _, _⟩ := deliver_spec h
   intro j r
   rw [hst, List.mem_filter]
+  cases hd : r.dead u s.now <;> simp
+
+/-! ## the withdrawal is permanent (was finding F2, repaired by f370f06) -/
+
+/-- A graceful exit interrupts a `process_peering_event` call that sleeps towards a blocker's deadline
+    (`_wait_for_depletion` sets the stream pressure): the call returns without touching, so `wake` is not enabled any
+    more for the exited operator. -/
+theorem exit_interrupts_sleep {u : Int} {s s' : State} {i : Identity} (h : step u s (.exit i) = some s') :
+    (∃ o, s'.ops i = some o ∧ o.alive = false ∧ o.sleeping = false) ∧ step u s' (.wake i) = none := by
+  obtain ⟨o, _, _, _, _, hops⟩ := exit_spec h
+  have h1 : s'.ops i = some { o with alive := false, sleeping := false } := by rw [hops]; simp
+  refine ⟨⟨_, h1, rfl, rfl⟩, ?_⟩
+  simp only [step, h1]
   simp
 
-/-! ## the withdrawal can be undone (finding F2), and when it cannot -/
+/-- the schedule that used to put B's record back after B's exit is not a run of the system any more -/
+example : (run 64 init [.start "A" 100 2, .start "B" 10 10, .keepalive "A", .keepalive "B", .deliver "B", .exit "B",
+                        .tick 64, .wake "B"]).isSome = false := by decide
 
-/-- A graceful exit does NOT wake a `process_peering_event` call that sleeps towards a blocker's deadline; when it
-    wakes it touches the record back. Concretely: B (priority 10) is paused by A (priority 100), exits gracefully —
-    record removed —, then its sleeping call wakes: B's record is in the status again although B is gone.
-    (Replayed on the real code as corpus/C13/F2.json.) -/
-theorem late_self_touch_witness :
-    ((run 64 init [.start "A" 100 2, .start "B" 10 10, .keepalive "A", .keepalive "B", .deliver "B", .exit "B", .tick 64, .wake "B"]).map
-      (fun s => ((s.ops "B").map (·.alive), s.status.map (·.1)))) = some (some false, ["A", "B"]) := by decide
-
-/-- `withdraw_on_exit`, made permanent — partial: it needs that no call of the operator was sleeping when it exited
-    (and, of course, that nobody starts it again or writes a record under its name). Then, whatever else happens in any
-    order, its record never comes back. Without `hs` the statement is false: `late_self_touch_witness`. -/
-theorem withdrawn_stays_partial {u : Int} {i : Identity} : ∀ (ls : List Label) (s s' : State),
+/-- An operator that is gone, has no sleeping call and no record stays without a record, whatever else happens in any
+    order — as long as nobody starts it again or writes a record under its name. -/
+theorem withdrawn_stays_from {u : Int} {i : Identity} : ∀ (ls : List Label) (s s' : State),
     (∃ o, s.ops i = some o ∧ o.alive = false ∧ o.sleeping = false) → (∀ r, (i, r) ∉ s.status) →
     (∀ l ∈ ls, (∀ p lt, l ≠ .start i p lt) ∧ (∀ r, l ≠ .foreign i (some r))) →
     run u s ls = some s' → ∀ r, (i, r) ∉ s'.status := by
@@ -468,6 +476,12 @@ theorem withdrawn_stays_partial {u : Int} {i : Identity} : ∀ (ls : List Label)
               exact hn r ((mem_patch_other hji).mp hm)
             · simp [hjs] at hs
 
+/-- `withdraw_on_exit`, made permanent: after a graceful exit the record never comes back. -/
+theorem withdrawn_stays {u : Int} {i : Identity} {s s1 s' : State} (h1 : step u s (.exit i) = some s1) (ls : List Label)
+    (hall : ∀ l ∈ ls, (∀ p lt, l ≠ .start i p lt) ∧ (∀ r, l ≠ .foreign i (some r)))
+    (h2 : run u s1 ls = some s') : ∀ r, (i, r) ∉ s'.status :=
+  withdrawn_stays_from ls s1 s' (exit_interrupts_sleep h1).1 (withdraw_on_exit h1).1 hall h2
+
 /-! ## non-vacuity -/
 
 def exA : Rec := { priority := 100, lifetime := 10, lastseen := 0 }
@@ -558,9 +572,11 @@ example : ((run 64 init [.start "A" 100 10, .start "B" 10 8, .keepalive "A", .ke
                          .kill "A", .tick 400, .keepalive "B", .expire "A", .deliver "B"]).map
             (fun s => (s.now, s.status.map (·.1), (s.ops "B").map (·.paused)))) = some (640, ["B"], some false) := by decide
 
--- the hypotheses of `withdrawn_stays_partial` are met by an operator that exits while nobody blocks it
-example : ((run 64 init [.start "A" 100 10, .keepalive "A", .deliver "A", .exit "A"]).map
-    (fun s => ((s.ops "A").map (fun o => (o.alive, o.sleeping)), s.status.map (·.1)))) = some (some (false, false), []) := by decide
+-- `withdrawn_stays` applies to an operator that exits WHILE its call sleeps towards a blocker's deadline
+example : ((run 64 init [.start "A" 100 2, .start "B" 10 10, .keepalive "A", .keepalive "B", .deliver "B"]).map
+    (fun s => (s.ops "B").map (fun o => (o.alive, o.sleeping)))) = some (some (true, true)) := by decide
+example : ((run 64 init [.start "A" 100 2, .start "B" 10 10, .keepalive "A", .keepalive "B", .deliver "B", .exit "B", .tick 64]).map
+    (fun s => ((s.ops "B").map (fun o => (o.alive, o.sleeping)), s.status.map (·.1)))) = some (some (false, false), ["A"]) := by decide
 
 -- renewal hypotheses are satisfiable: lifetime 2, API calls of one tick (1/64 s)
 example : Renewed 64 2 0 [⟨2, 1, 5⟩, ⟨2, 1, 10⟩, ⟨2, 1, 7⟩] :=
@@ -569,8 +585,17 @@ example : Renewed 64 2 0 [⟨2, 1, 5⟩, ⟨2, 1, 10⟩, ⟨2, 1, 7⟩] :=
     simp only [List.mem_cons, List.mem_nil_iff, or_false] at hr
     rcases hr with rfl | rfl | rfl <;> decide)
 
--- the lifetime = 1 corner, concretely: the record built at 0 is dead when its successor arrives at 66
-example : ¬ Renewed 64 1 0 [⟨1, 1, 5⟩, ⟨1, 1, 5⟩] :=
-  (renewal_lifetime_one 64 0 ⟨1, 1, 5⟩ ⟨1, 1, 5⟩ [] (by decide) (by decide) (by decide)).1
+-- the lifetime = 1 corner, concretely: half-second periods, API calls of one tick: renewed, three rounds
+example : Renewed 64 1 0 [⟨2, 1, 5⟩, ⟨2, 1, 10⟩, ⟨2, 1, 7⟩] :=
+  renewal 64 1 2 (by decide) (by decide) (by decide) _ 0 (by
+    intro r hr
+    simp only [List.mem_cons, List.mem_nil_iff, or_false] at hr
+    rcases hr with rfl | rfl | rfl <;> decide)
+
+-- the own dead record stays, a dead record of somebody else goes
+example : decideEv 64 [("B", .record { priority := some (.num 10), lifetime := some (.num 1), lastseen := .at 0, identityKey := false }),
+                      ("G", .record { priority := some (.num 500), lifetime := some (.num 1), lastseen := .at 0, identityKey := false })]
+          "B" 10 true (some true) 128 129
+        = .ok { cleaned := ["G"], turned := some false, paused := some false, delays := [], sleep := none, touch := false } := by decide
 
 end Kopf.C13
